@@ -247,10 +247,21 @@ class ProxyProjector:
             if len(done) != len(set(done)):
                 self.ambiguous = True
                 return None
+            # two requests that claim a target within one line were woken together (a gate release with several
+            # requests held): their order in the rotation is goroutine scheduling
+            if sum(1 for e in pb[1] if e.startswith('got ')) >= 2:
+                self.ambiguous = True
+                return None
         if pa is None or pb is None:
             return a, b, False
         ea = sorted(x for x in (self.ev(e) for e in pa[1]) if x)
         eb = sorted(x for x in (self.ev(e) for e in pb[1]) if x)
+        # a command that returns in this line disposes load balancers at the very instant their probe loops may
+        # fire a buffered tick (two goroutines runnable at one virtual instant): probes are not compared in such a
+        # line; a probe loop that survives a dispose shows in every later line
+        if any(e.startswith('cmd ') for e in pb[1]) or any(e.startswith('cmd ') for e in pa[1]):
+            ea = [x for x in ea if not x.startswith('probe ')]
+            eb = [x for x in eb if not x.startswith('probe ')]
         ta = pa[0] if self.keep_time and ea else ''
         tb = pb[0] if self.keep_time and eb else ''
         return (ta, ea, pa[2]), (tb, eb, pb[2]), self.interesting(kind, op, pb[1])
